@@ -8,6 +8,11 @@ CLAIMED = {
         technique="Coq proof (induction over operation histories) + model/implementation correspondence",
         ref="5/C20"),
 }
+CLAIMED["C16"] = dict(
+    text="Coq theorems over the model of event_router.py for all wirings: both conversions preserve the connection set (from_inverse unconditionally; from_wiring for single-source input ports), both round trips, component-set preservation, route() delivers exactly along the wires, dependants = reflexive-transitive closure (cycles included). The model is tied to Wiring/InverseWiring/EventRouter by exhaustive small-scope and random correspondence on every run.",
+    note="Trusted: Coq kernel + vm_compute, harness. Python dict/set semantics modelled as insertion-ordered association lists / duplicate-free lists compared as sets. The fuel bound of the model's breadth-first crawl (2+|connections|) is validated by the correspondence, the theorem is conditional on the crawl answering.",
+    technique="Coq proof (fold invariants, induction on reachability) + model/implementation correspondence",
+    ref="5/C16")
 NOT_YET = {}
 ALL = [f"C{n:02d}" for n in range(1, 21)]
 
